@@ -155,15 +155,15 @@ func c14Instantiate(shape string, r *core.Rng, words []string) string {
 func c14() *core.Check {
 	return &core.Check{
 		ID: "C14",
-		Rule: "G_benign against the LIVE keyword table: word = [A-Za-z_][A-Za-z0-9_]* from a frozen list (4000 English words in three capitalisations + identifier shapes of length 1-40), also behind 28 identifier prefixes (sp_, xp_, pg_, is_, ... one family per sequence) and mixed with marker-like words (sp_password, near-keywords) that is not a key, component or dotted prefix of a key; number = [0-9]+ incl. 31/32/33-digit runs; (1) the token-class abstraction exhaustively: all 62 sequences over {n,1} of length 1-5 must be absent from the live blacklist; (2) every sequence shape over {word,number} up to length 7 joined by single spaces, 64 (thorough 2048) random instantiations each; (3) e-mail / decimal / sentence shapes (those not dropped by the one-time calibration), sampled. Oracle: IsSQLi = (false,\"\"). " +
+		Rule: "G_benign against the LIVE keyword table: word = [A-Za-z_][A-Za-z0-9_]* from a frozen list (4000 English words in three capitalisations + identifier shapes of length 1-40), also behind 28 identifier prefixes (sp_, xp_, pg_, is_, ... one family per sequence) and mixed with marker-like words (sp_password, near-keywords) that is not a key, component or dotted prefix of a key; number = [0-9]+ incl. 31/32/33-digit runs; (1) the token-class abstraction exhaustively: all 62 sequences over {n,1} of length 1-5 must be absent from the live blacklist; (2) every sequence shape over {word,number} up to length 7 joined by single spaces, 64 (thorough 16384) random instantiations each; (3) e-mail / decimal / sentence shapes (those not dropped by the one-time calibration), sampled. Oracle: IsSQLi = (false,\"\"). " +
 			"Non-trivial = every instance; distinct by string. The per-context fingerprints are recorded to show that the n/1 abstraction is what the implementation produced.",
 		Exhaustive: false,
 		Plan: func(tier string, seed uint64) []core.Unit {
 			inst := uint64(64)
 			shp := uint64(200000)
 			if tier == "thorough" {
-				inst = 2048
-				shp = 5000000
+				inst = 16384
+				shp = 40000000
 			}
 			us := []core.Unit{{Gen: "abstraction", Lo: 0, Hi: 1}}
 			// sequence shapes over {W,N} of length 1..7: 2+4+...+128 = 254 shapes
@@ -367,7 +367,7 @@ func c19() *core.Check {
 			rnd := uint64(300000)
 			if tier == "thorough" {
 				L = 7
-				rnd = 6000000
+				rnd = 40000000
 			}
 			var us []core.Unit
 			for l := 0; l <= L; l++ {
